@@ -20,7 +20,9 @@ CHECKS["C01"] = dict(
     rule="Documents: all words <= k over the byte/token alphabets (document tokens incl. raw invalid bytes, DTD-subset tokens placed in an internal and "
          "in an external subset, XSD component tokens inside xs:schema), a catalogue of single-constraint violations, every single-character deletion and duplication of 15 well-formed markup declarations (dtdmut: the error-recovery "
          "branches of DTDScanner) in the internal and in the external subset, the DTD-rich structured space and "
-         "every proper byte prefix of its documents. Each document is parsed under a *listed* configuration set: the full product "
+         "every proper byte prefix of its documents; a UTF-16 refill ladder (40 constructs - supplementary characters inside element / attribute / prefix / PI-target / entity names, "
+         "comments, CDATA, values, lone surrogates, ... - slid unit by unit across the 16384-unit char-buffer refills and the end of the first raw-buffer fill, in UTF-16LE and BE, "
+         "namespaces off/on, 3 pad characters; in UTF-16 a surrogate pair can straddle a refill, which UTF-8 input can never produce). Each document is parsed under a *listed* configuration set: the full product "
          "{SAX1,SAX2,DOM,DOMLS,progressive} x 4 scanners x 3 validation schemes x 2^7 features (7680 configurations) for k<=1, and the 60 cores x a "
          "16-row strength-2 covering array of the 7 features (960 configurations) or a 48-configuration subset otherwise. Oracle: process survives, no "
          "ASan/UBSan report (-fno-sanitize-recover), only documented exception types, per-case watchdog (re-run alone at 20x before being called a hang), "
@@ -36,7 +38,8 @@ CHECKS["C01"] = dict(
                _px("dtd-words-k1-960cfg", "--space", "c01", "--docs", "dtd", "--k", 1, "--cfgset", "array"),
                _px("xsd-words-k1-960cfg", "--space", "c01", "--docs", "xsd", "--k", 1, "--cfgset", "array"),
                _px("dtd-declaration-damage-960cfg", "--space", "c01", "--docs", "dtdmut", "--cfgset", "array"),
-               _px("prefixes", "--space", "prefix", "--rootattrs", 1, "--content", 0)],
+               _px("prefixes", "--space", "prefix", "--rootattrs", 1, "--content", 0),
+               dict(name="utf16-surrogate-refill-ladder", driver="chunkx", args=["--space", "slide16", "--slide", 1, "--max-viol", 400])],
         thorough=[_px("doc-words-k1-full-product", "--space", "c01", "--docs", "s1", "--k", 1, "--cfgset", "full"),
                   _px("doc-words-k2-960cfg", "--space", "c01", "--docs", "s1", "--k", 2, "--cfgset", "array"),
                   _px("doc-words-k3-48cfg", "--space", "c01", "--docs", "s1", "--k", 3, "--cfgset", "small"),
@@ -46,7 +49,8 @@ CHECKS["C01"] = dict(
                   _px("xsd-words-k2-48cfg", "--space", "c01", "--docs", "xsd", "--k", 2, "--cfgset", "small"),
                   _px("dtd-declaration-damage-full", "--space", "c01", "--docs", "dtdmut", "--cfgset", "full"),
                   _px("dtd-rich-k1-960cfg", "--space", "c01", "--docs", "s4", "--k", 1, "--cfgset", "array"),
-                  _px("prefixes", "--space", "prefix", "--rootattrs", 2, "--content", 0)],
+                  _px("prefixes", "--space", "prefix", "--rootattrs", 2, "--content", 0),
+                  dict(name="utf16-surrogate-refill-ladder", driver="chunkx", args=["--space", "slide16", "--slide", 4, "--max-viol", 400])],
     ),
     manifest=dict(technique="bounded-exhaustive enumeration of byte/token words x listed configuration product on the real parser under ASan+UBSan with crash pinning and watchdog"),
 )
@@ -122,7 +126,7 @@ def _cx(name, *args, **kw):
 
 def _c04_cov(rs):
     plans = sum(v for r in rs for k, v in r.get("counters", {}).items() if k.startswith("plans:"))
-    slide = sum(r.get("counters", {}).get("evaluations", 0) for r in rs if r.get("space") == "slide")
+    slide = sum(r.get("counters", {}).get("evaluations", 0) for r in rs if r.get("space") in ("slide", "slide16"))
     docs = sum(r.get("corpus", 0) for r in rs if r.get("space") == "cuts")
     return {"states": docs + sum(r.get("constructs", 0) for r in rs), "transitions": plans + slide, "traces_validated_against_impl": _sum(rs, "parses"),
             "distinct_nontrivial": _sum(rs, "cut_inside_multibyte") + _sum(rs, "cut_inside_crlf") + _sum(rs, "cut_inside_delimiter"),
@@ -149,10 +153,12 @@ CHECKS["C04"] = dict(
         quick=[_cx("cuts-initial-load", "--space", "cuts", "--bound", 1, "--bound2-some", 1, "--max-viol", 400),
                _cx("cuts-steady-state-padded", "--space", "cuts", "--bound", 1, "--pad", 1, "--partitions", 0, "--max-viol", 400),
                _cx("slide-real-boundaries", "--space", "slide", "--slide", 1, "--max-viol", 400),
+               _cx("slide-real-boundaries-utf16", "--space", "slide16", "--slide", 1, "--max-viol", 400),
                _cx("source-kinds", "--space", "sources")],
         thorough=[_cx("cuts-initial-load", "--space", "cuts", "--bound", 2, "--max-viol", 400),
                   _cx("cuts-steady-state-padded", "--space", "cuts", "--bound", 1, "--bound2-some", 1, "--pad", 1, "--max-viol", 400),
                   _cx("slide-real-boundaries", "--space", "slide", "--slide", 8, "--max-viol", 400),
+                  _cx("slide-real-boundaries-utf16", "--space", "slide16", "--slide", 4, "--max-viol", 400),
                   _cx("source-kinds", "--space", "sources")],
     ),
     manifest=dict(technique="exhaustive exploration of stream read partitions (deviation-bounded cuts, uniform reads, all partitions of tiny inputs) and buffer-boundary placements on the real parser, compared with the undisturbed execution",
@@ -170,7 +176,7 @@ def _c15_cov(rs):
     return {"states": max(1, _sum(rs, "distinct_signatures")), "transitions": _sum(rs, "parses"), "traces_validated_against_impl": hist,
             "distinct_nontrivial": _sum(rs, "final_rejected") + _sum(rs, "final_with_validity_errors") + _sum(rs, "instances_invalid") + _sum(rs, "handler_exceptions_thrown"),
             "nonvacuity": {k: _sum(rs, k) for k in ("final_accepted", "final_rejected", "final_with_validity_errors", "handler_exceptions_thrown", "documents_adopted",
-                                                     "adopted_documents_rechecked", "instances_valid", "instances_invalid", "locked_pool_checks", "growth_histories")},
+                                                     "adopted_documents_rechecked", "instances_valid", "instances_invalid", "locked_pool_checks", "growth_histories", "schema_reuse_histories")},
             "explanation": "states = distinct abstract reference-model states (final configuration x API) reached; transitions = operations executed on real parser objects; "
                            "traces = complete histories, each executed on a long-lived parser and compared with a freshly constructed one"}
 
@@ -188,7 +194,10 @@ CHECKS["C15"] = dict(
          "Table-growth space: every sequence of <= 2 (thorough 3) parses, on one parser, of 9 documents that push the per-parser tables past their initial capacity (70 distinct "
          "declared attributes specified on one element - the attribute-bookkeeping pool has rows of 64 -, 40 nested elements, 40 namespace declarations, 120 attributes on one "
          "element, 70 IDs) and of small documents over the same DTD, x {no caching, cacheGrammarFromParse+useCachedGrammarInParse, preloaded grammar} x 3 APIs; the final parse "
-         "of every document must equal the parse by a fresh parser.",
+         "of every document must equal the parse by a fresh parser. Schema-reuse space: the same for 23 schema-validated documents over one schema (70-attribute complex type, "
+         "unique/key/keyref incl. 90 keys in a nested scope, xsi:nil, xsi:type, substitution group, lax wildcard into a known / unknown namespace, defaults, lists, 70 IDs, 40 levels, "
+         "an undeclared element, and three documents that end - parse abandoned - inside a nilled element, inside a key scope, inside a 65-attribute start tag) x {IGXMLScanner, SGXMLScanner} x "
+         "3 cache regimes; quick: every history of <= 1 prior parse (API rotating with the history index), thorough: <= 1 under all 3 APIs and <= 2 with cacheGrammarFromParse.",
     trusted_base=["clang 14 ASan/UBSan"],
     assumptions=["when a cached DTD grammar is used, declaration events and the DOM doctype's entity map are not replayed by design; they are projected away (the property names verdicts, defaults and type information)"],
     coverage=_c15_cov,
@@ -196,11 +205,14 @@ CHECKS["C15"] = dict(
         quick=[_hx("histories-depth1", "--space", "hist", "--depth", 1),
                _hx("histories-depth2-6docs", "--space", "hist", "--depth", 2, "--opdocs", 6),
                _hx("cache-transparency", "--space", "cache"),
-               _hx("table-growth-histories-depth2", "--space", "growth", "--depth", 2)],
+               _hx("table-growth-histories-depth2", "--space", "growth", "--depth", 2),
+               _hx("schema-reuse-histories-depth1", "--space", "schema", "--depth", 1, "--rotate", 1)],
         thorough=[_hx("histories-depth2", "--space", "hist", "--depth", 2),
                   _hx("histories-depth3-3docs", "--space", "hist", "--depth", 3, "--opdocs", 3),
                   _hx("cache-transparency", "--space", "cache"),
-                  _hx("table-growth-histories-depth3", "--space", "growth", "--depth", 3)],
+                  _hx("table-growth-histories-depth3", "--space", "growth", "--depth", 3),
+                  _hx("schema-reuse-histories-depth1-all-apis", "--space", "schema", "--depth", 1),
+                  _hx("schema-reuse-histories-depth2-cached", "--space", "schema", "--depth", 2, "--rotate", 1, "--caches", "1")],
     ),
     manifest=dict(technique="exhaustive enumeration of operation histories up to a depth on long-lived real parser objects, each compared with a fresh parser (reference model = configuration tracking)",
                   text="All histories within the depth bound are executed on the real parser; hidden state is exactly what is under test, so no state merging is done on the implementation side."),
@@ -275,6 +287,11 @@ CHECKS["C18"] = dict(
          "undisturbed run, a progressive parse abandoned after every parseNext. After each: ledger empty, no fault, and a repeat of the scenario does not grow the global "
          "manager. Initialize/Terminate: ALL sequences of length <= d over {Init(default), Init(custom manager), Terminate, parse, regex, transcode/registry} that are "
          "balanced are executed back to back in one process; after the last Terminate the custom manager's ledger is empty and every work item gives the first-time result. "
+         "DOM arena arguments: the parse-ending space is repeated with Initialize(initialDOMHeapAllocSize, maxDOMHeapAllocSize, maxDOMSubAllocationSize, ...) = (0x10000, 0x80000, 0x1000), "
+         "(0x200, 0x400, 0x20) and (0x4000, 0x4000, 0x4000), the documents including text nodes and attribute values of 3000-5000 characters that keep growing by entity replacement text "
+         "(blocks of their own in the arena, released one by one while parsing); the Initialize/Terminate sequences are repeated with those arguments and a DOM work item. "
+         "Each parse-ending run exists twice: with namespaces, schema processing and validation=auto switched on, and with the parsers' defaults (no namespaces, no validation, entity "
+         "reference nodes off) - what is allocated in a document's arena before its first long string depends on it. "
          "Grammar pool histories: one ledger manager is given to an XMLGrammarPoolImpl and to the parser(s) created on it; EVERY sequence of <= 3 (thorough 4) operations over "
          "{loadGrammar(DTD | schema A | another schema document of the same namespace | broken schema) with and without caching, parse with useCachedGrammarInParse / "
          "cacheGrammarFromParse, parse of a malformed document, lockPool, unlockPool, resetCachedGrammarPool, switch to a second parser on the same pool} x {SAX2XMLReader, "
@@ -285,8 +302,18 @@ CHECKS["C18"] = dict(
                  "allocation failure is not injected", "blocks the library takes from operator new directly (not through a MemoryManager) are only covered by ASan, not by the ledger"],
     coverage=_c18_cov,
     runs=dict(
-        quick=[_mx("parse-endings-k1", "--space", "parse", "--k", 1), _mx("init-term-depth5", "--space", "initterm", "--depth", 5), _mx("grammar-pool-histories-depth3", "--space", "pool", "--depth", 3), _mx("grammar-pool-stale-parser-witness", "--space", "poolwitness")],
-        thorough=[_mx("parse-endings-k2", "--space", "parse", "--k", 2), _mx("init-term-depth7", "--space", "initterm", "--depth", 7), _mx("grammar-pool-histories-depth4", "--space", "pool", "--depth", 4), _mx("grammar-pool-stale-parser-witness", "--space", "poolwitness")],
+        quick=[_mx("parse-endings-k1", "--space", "parse", "--k", 1), _mx("init-term-depth5", "--space", "initterm", "--depth", 5),
+               _mx("parse-endings-k1-dom-arena-sublimit-4096", "--space", "parse", "--k", 1, "--domheap", 1), _mx("parse-endings-k1-dom-arena-sublimit-32", "--space", "parse", "--k", 1, "--domheap", 2),
+               _mx("parse-endings-k1-dom-arena-sublimit-eq-block", "--space", "parse", "--k", 1, "--domheap", 3), _mx("init-term-depth5-dom-arena-arguments", "--space", "initterm", "--depth", 5, "--domheap", 1),
+               _mx("parse-endings-k1-parser-defaults", "--space", "parse", "--k", 1, "--plain", 1), _mx("parse-endings-k1-parser-defaults-dom-arena-sublimit-4096", "--space", "parse", "--k", 1, "--plain", 1, "--domheap", 1),
+               _mx("parse-endings-k1-parser-defaults-dom-arena-sublimit-32", "--space", "parse", "--k", 1, "--plain", 1, "--domheap", 2), _mx("parse-endings-k1-parser-defaults-dom-arena-sublimit-eq-block", "--space", "parse", "--k", 1, "--plain", 1, "--domheap", 3),
+               _mx("grammar-pool-histories-depth3", "--space", "pool", "--depth", 3), _mx("grammar-pool-stale-parser-witness", "--space", "poolwitness")],
+        thorough=[_mx("parse-endings-k2", "--space", "parse", "--k", 2), _mx("init-term-depth7", "--space", "initterm", "--depth", 7),
+                  _mx("parse-endings-k2-dom-arena-sublimit-4096", "--space", "parse", "--k", 2, "--domheap", 1), _mx("parse-endings-k2-dom-arena-sublimit-32", "--space", "parse", "--k", 2, "--domheap", 2),
+                  _mx("parse-endings-k1-dom-arena-sublimit-eq-block", "--space", "parse", "--k", 1, "--domheap", 3), _mx("init-term-depth7-dom-arena-arguments", "--space", "initterm", "--depth", 7, "--domheap", 1),
+                  _mx("parse-endings-k2-parser-defaults", "--space", "parse", "--k", 2, "--plain", 1), _mx("parse-endings-k2-parser-defaults-dom-arena-sublimit-4096", "--space", "parse", "--k", 2, "--plain", 1, "--domheap", 1),
+                  _mx("parse-endings-k2-parser-defaults-dom-arena-sublimit-32", "--space", "parse", "--k", 2, "--plain", 1, "--domheap", 2), _mx("parse-endings-k1-parser-defaults-dom-arena-sublimit-eq-block", "--space", "parse", "--k", 1, "--plain", 1, "--domheap", 3),
+                  _mx("grammar-pool-histories-depth4", "--space", "pool", "--depth", 4), _mx("grammar-pool-stale-parser-witness", "--space", "poolwitness")],
     ),
     manifest=dict(technique="exhaustive enumeration of parse endings (every callback index, every parseNext count) and of balanced Initialize/Terminate sequences on the real library with ledger memory managers",
                   text="Every ending within the stated bounds is executed; the ledger invariant is evaluated after each."),
